@@ -150,6 +150,12 @@ def impl(line):
             if name == 'vs': return show_buf(Acts.value_sent(f))
             if name == 'ms': return show_buf(Acts.mapping_sent(f, mk_tv(p_tv(T))))
             if name == 'lsb': return show_buf(Acts.least_significant_bits(f, T.nat()))
+        if op == 'umcompress':
+            # a ContextManager built on an explicit (semantic / predictive) PacketParser instead of a registry id
+            pp = mk_stack(T.next()); rules = p_rules(T); pk = mk_buf(T.next()); d = DirectionIndicator(DIRS[T.next()]); st = strat(T.next())
+            cm = ContextManager(Context(id='c', description='', interface_id='i', parser_id='CoAP', ruleset=[mk_rule(r) for r in rules]), parser=pp)
+            c = cm.compress(pk, direction=d, match_strategy=st)
+            return show_buf(c) if c is not None else 'None'
         if op == 'uroundtrip':
             # explicit (possibly semantic) stack: parse, rule by recipe from the parsed fields, compress, decompress WITH the
             # parser as unparser (C01 through the un-parsing path, C19)
@@ -264,8 +270,13 @@ def oracle(line, out):
             n = T.nat(); exp = val[len(val) - n:] if n <= len(val) else None
         if exp is not None and (err or out[2:] != exp):
             v.append(('C02', f'compression action {name} gives {out}, residue is {exp!r}'))
+    elif op == 'umcompress':
+        if err and err not in LIB: v.append(('C15', f'manager on an explicit stack raised {err}'))
+        if out == 'None': v.append(('C15', 'manager returned None'))
+        if 'nomatch' in meta and out not in ('err:RuleDescriptorMatchError', 'err:ParserError'): v.append(('C15', f'no rule in the set: got {out}'))
     elif op == 'uroundtrip':
         T.next(); T.next(); T.next(); pk = T.next()
+        if err and err not in LIB and 'c15u' in meta: v.append(('C15', f'explicit stack raised {err}'))
         if 'c01u' in meta and (err or out.split(' ')[1][2:] != pk[2:]):
             v.append(('C01', f'round trip through the unparser gives {out} for {pk}'))
             v.append(('C19', f'round trip through the unparser gives {out} for {pk}'))
@@ -763,7 +774,32 @@ def _gen_unparser(rng, q, props):
         tags = 'c01u' + (' c09u' if 'c' in rec else '')
         yield f"schc uroundtrip {stackspec} {rec} {rid} L:{packets.bits_of(data)} {rng.choice('UD-')} # {tags}"
 
+def _gen_c15_explicit(rng, q):
+    """well-formed and damaged packets through explicit stacks (CoAP options in semantic mode, next-header prediction):
+    whatever happens, only the library's own errors may come out"""
+    specs = [('IPv6+UDP+CoAPs', 'IPv6-UDP-CoAP'), ('IPv4+UDP+CoAPs', 'IPv4-UDP-CoAP'), ('CoAPs', 'CoAP'), ('IPv6p', 'IPv6-UDP-CoAP'), ('UDPp', 'UDP')]
+    for i in range(30 if q else 300):
+        stackspec, cfg = specs[i % len(specs)]
+        data, _, _ = packets.gen_stack_packet(rng, cfg, correct=True, coap_style=['small', 'mixed', 'boundary', 'none'][i % 4])
+        dflt = [rulegen.default_rule(rulegen.rbits(rng, rng.randrange(1, 6)))]
+        variants = [data, data[:rng.randrange(0, len(data) + 1)], data[:rng.randrange(0, len(data) + 1)]]
+        # option bytes with the reserved nibble 15 (not the 0xFF marker), alone and after real options; damaged tails
+        cut = len(data) - rng.randrange(0, 6)
+        variants += [data[:cut] + bytes([0xf0 | rng.randrange(0, 15)]) + bytes(rng.randrange(256) for _ in range(rng.randrange(0, 4))),
+                     data[:cut] + bytes([rng.randrange(0, 15) << 4 | 0x0f]) + bytes(rng.randrange(0, 3)),
+                     data[:cut] + bytes(rng.randrange(256) for _ in range(rng.randrange(1, 5)))]
+        if cfg != 'UDP':
+            base = {'IPv6-UDP-CoAP': 48, 'IPv4-UDP-CoAP': 28, 'CoAP': 0}[cfg]
+            for a in (0xf1, 0xf7, 0xe0, 0xd0, 0x1f):
+                variants.append(data[:base + 4] + bytes([a, 0x41]))          # right after a token-less CoAP fixed header
+        for m in variants:
+            bits = 'L:' + packets.bits_of(m)
+            yield f"schc umcompress {stackspec} {e_rules(dflt)} {bits} {rng.choice('UD')} {rng.choice(['first', 'best'])}"
+            yield f"schc umcompress {stackspec} 0 {bits} {rng.choice('UD')} {rng.choice(['first', 'best'])} # nomatch"
+            yield f"schc uroundtrip {stackspec} {rng.choice(['v', 'vn', 'nl'])} L:1 {bits} {rng.choice('UD-')} # c15u"
+
 def _gen_c15(rng, q):
+    yield from _gen_c15_explicit(rng, q)
     N = 60 if q else 500
     for i in range(N):
         stack = STACKS[i % 5]
